@@ -368,6 +368,30 @@ def gen_lines(g, n):
         M, cl = gen_matrix_mod(r, p, 4, cols)
         g.count("ker%dp:%s" % (cols, cl))
         add("ker", "ker4%dp %s %s" % (cols, hx(p), " ".join(hx(e) for row in M for e in row)))
+    # --- kernel mod 2^e (Howell form, matkermod.c): NO Lean model; real code vs defining equations only
+    for _ in range(4 * w):
+        e = r.choice([1, 2, 3, 8, 31, 64, 65, 128, 248, 1 + r.below(300)])
+        m = 2 ** e
+        c = r.below(4)
+        if c in (0, 1):
+            v = [r.below(m) for _ in range(4)]
+            piv = r.below(4)
+            v[piv] |= 1
+            inv = pow(v[piv], -1, m)
+            M = []
+            for _i in range(4):
+                row = [r.below(m) for _ in range(4)]
+                sacc = sum(row[j] * v[j] for j in range(4) if j != piv)
+                row[piv] = (-sacc * inv) % m
+                M.append(row)
+            g.count("ker2e:planted-primitive-kernel")
+        elif c == 2:
+            M = [[r.below(m) for _ in range(4)] for _ in range(4)]
+            g.count("ker2e:random")
+        else:
+            M = [[(r.below(m) << r.below(e)) % m for _ in range(4)] for _ in range(4)]
+            g.count("ker2e:even-heavy")
+        add("ker2e-oracle", "ker44two %x %s" % (e, " ".join(hx(x) for row in M for x in row)))
     return out
 
 
@@ -679,7 +703,8 @@ def harness_stage(ctx, exe, ncases):
         st = per.setdefault(suite, dict(ops=0, disagreements=0, examples=[]))
         st["ops"] += 1
         ctx.case(line)
-        # the model's "ub" on the x86 op is by construction compared through randint86
+        if suite.endswith("-oracle"):
+            m = c            # no model for this routine: only the defining equations are checked
         if c != m:
             st["disagreements"] += 1
             if len(st["examples"]) < 5:
@@ -687,10 +712,9 @@ def harness_stage(ctx, exe, ncases):
         o = oracle(line, c)
         if o:
             found.append((o, line, c, m))
-        elif c != m:
-            found.append(((("corr:" + line)[:160]), None, ), ) if False else None
     for suite, st in sorted(per.items()):
-        ctx.obligation("correspondence %s (%d ops)" % (suite, st["ops"]), st["disagreements"] == 0, json.dumps(st["examples"])[:600])
+        kind = "oracle-only run" if suite.endswith("-oracle") else "correspondence"
+        ctx.obligation("%s %s (%d ops)" % (kind, suite, st["ops"]), st["disagreements"] == 0, json.dumps(st["examples"])[:600])
         ctx.coverage.setdefault("correspondence", {})[suite] = dict(ops=st["ops"], disagreements=st["disagreements"])
     ctx.coverage["generator_histogram"] = dict(sorted(g.hist.items()))
     ctx.coverage["primes_used"] = len(g.primes)
